@@ -36,7 +36,8 @@ class LoopSpec:
 
 
 class Contract:
-    def __init__(self, path, qualname, serves=(), unwrap=0, modular=False, name=None):
+    def __init__(self, path, qualname, serves=(), unwrap=0, modular=False, name=None, src=None):
+        self.src = src              # lemma: ghost function text (calls the real code), run in the module's namespace
         self.path = path
         self.qualname = qualname
         self.serves = list(serves)
@@ -60,7 +61,15 @@ class Contract:
         self.lemma_fn = None
         self.modes = ['R']
         self.defines_ = []
+        self.effect_fn = None
         REGISTRY.append(self)
+
+    def effect(self, fn):
+        """modular use: fn(I, env) writes the post-state directly (instead of havoc + assume).  The
+        ensures clauses are then *checked* at every call site against that state (obligations
+        '...effect-satisfies...'), so an effect that does not realise the proven postcondition fails."""
+        self.effect_fn = fn
+        return fn
 
     def define(self, name, text):
         """name bound (after the body ran) to the value of a spec expression; usable in ensures."""
@@ -447,8 +456,13 @@ def install_spec_fns(I):
         if isinstance(s, SymSeq):
             arr, n = I_.read_seq(s)
             return mk(z3.Select(arr, to_term(i, 'int')), s.ek)
-        if isinstance(s, SymSet):
-            return mk(z3.Select(s.m, to_term(i, 'int')), 'bool')
+        if isinstance(s, (SymSet, PySet)):
+            from .models import to_symset
+            m = s.m if isinstance(s, SymSet) else to_symset(s)
+            if I_.old_mode and I_.old_snapshot is not None and id(s) in I_.old_snapshot:
+                snap = I_.old_snapshot[id(s)]
+                m = snap if z3.is_expr(snap) else to_symset(PySet(snap))
+            return mk(z3.Select(m, to_term(i, 'int')), 'bool')
         raise TypeError('select on %r' % (s,))
 
     @reg('hue_same')
@@ -480,6 +494,24 @@ def module_name_of(path):
 
 def resolve(I, c):
     mod = I.load_module(module_name_of(c.path))
+    if c.src is not None:
+        from .interp import Env
+        import textwrap
+        tree = ast.parse(textwrap.dedent(c.src))
+        ns = dict(mod.ns)
+        env = Env(ns, None, ns)
+        lm = ModuleObj(mod.name + '#lemma', mod.path)
+        lm.ns = ns
+        I._mod_stack = getattr(I, '_mod_stack', [])
+        I._mod_stack.append(lm)
+        try:
+            I.exec_block(tree.body, env)
+        finally:
+            I._mod_stack.pop()
+        f = ns.get(c.qualname)
+        if isinstance(f, FuncObj):
+            f.is_lemma = True
+        return f
     parts = c.qualname.split('.')
     cur = mod.ns.get(parts[0], _MISSING)
     owner = None
@@ -567,7 +599,7 @@ def case_list(c):
     return [dict(zip(names, combo)) for combo in itertools.product(*alts)] or [{}]
 
 
-def verify_contract(I, c, timeout_ms=10000):
+def verify_contract(I, c, timeout_ms=10000, only_case=None):
     """Generate and discharge all obligations of contract c from the current source text."""
     res = FnResult(c)
     t0 = time.time()
@@ -590,7 +622,9 @@ def verify_contract(I, c, timeout_ms=10000):
                 return res
     all_obs = []
     try:
-        for case in case_list(c):
+        for case_i, case in enumerate(case_list(c)):
+            if only_case is not None and case_i != only_case:
+                continue
             res.cases += 1
             I.obligations = []
             label = ','.join('%s=%s' % (n, _alt_label(c, n, ix)) for n, ix in case.items())
@@ -714,6 +748,8 @@ def apply_contract_at_call(I, fn, c, args, kwargs):
     saved_snap = I.old_snapshot
     I.old_snapshot = I.snapshot(list(local.values()))
     try:
+        if c.effect_fn is not None:
+            c.effect_fn(I, penv)
         for target in c.modifies_:
             I.havoc_target(target, penv, LoopSpec(0, []))
         # exceptional exits the contract allows: nondeterministic choice
@@ -735,7 +771,11 @@ def apply_contract_at_call(I, fn, c, args, kwargs):
                 result = I.fresh(r, 'result_' + fn.name)
         penv.vars['result'] = result
         for cid, text, _sv in c.ensures_:
-            I.assume(I.eval_spec(text, penv))
+            if c.effect_fn is not None:
+                I.oblige('%s::call(%s).effect-satisfies.%s' % (caller, c.name, cid), I.eval_spec(text, penv),
+                         kind='pre', info={'clause': text})
+            else:
+                I.assume(I.eval_spec(text, penv))
         return result
     finally:
         I.old_snapshot = saved_snap
